@@ -588,7 +588,19 @@ def rebase(snapshot, ghost_before, current):
         for k, t in enumerate(current): toks += ghost_before[k] + [t]
         toks += ghost_before[len(snapshot)]
         return toks, 0, []
-    sm = difflib.SequenceMatcher(a=strs(snapshot), b=strs(current), autojunk=False)
+    # the closing brace of the function is pinned to the closing brace of the function (a flat diff of a flipped if/else may
+    # otherwise match it to an inner `}` and push the trailing proof block behind the end of the function)
+    if len(snapshot) > 1 and len(current) > 1 and str(snapshot[-1]) == '}' and str(current[-1]) == '}':
+        _sm = difflib.SequenceMatcher(a=strs(snapshot)[:-1], b=strs(current)[:-1], autojunk=False)
+        _ops = _sm.get_opcodes()
+        na, nb = len(snapshot) - 1, len(current) - 1
+        if _ops and _ops[-1][0] == 'equal': _ops[-1] = ('equal', _ops[-1][1], na + 1, _ops[-1][3], nb + 1)
+        else: _ops.append(('equal', na, na + 1, nb, nb + 1))
+        class _SM:
+            def get_opcodes(self_): return list(_ops)
+        sm = _SM()
+    else:
+        sm = difflib.SequenceMatcher(a=strs(snapshot), b=strs(current), autojunk=False)
     # a consistently renamed local (every `old` became `new`, `old` no longer occurs) is renamed in the ghost text too
     ren = {}; bad = set()
     for tag, a0, a1, b0, b1 in sm.get_opcodes():
